@@ -11,6 +11,7 @@ edited tree is still a valid run, which is what the minimiser relies on.
 """
 import hashlib
 import math
+import os
 import random
 import struct
 
@@ -186,6 +187,7 @@ class EventLog:
         self.lines = []
         self.n = 0
         self.kinds = []      # op-kind sequence (for interleaving measure)
+        self.progress_fd = None   # last op kind is mirrored here (crash info)
 
     def ev(self, *items):
         s = repr(items)
@@ -197,6 +199,12 @@ class EventLog:
 
     def kind(self, k):
         self.kinds.append(k)
+        if self.progress_fd is not None:
+            try:
+                os.pwrite(self.progress_fd,
+                          (str(k)[:120] + "\n").ljust(128).encode(), 0)
+            except OSError:
+                pass
 
     def digest(self):
         return self.h.hexdigest()[:24]
